@@ -19,10 +19,10 @@ import threading
 PROPERTY = "C17"
 LEVEL = "exploration"
 RULE = ("(a) seeded well-formed histories on 8 store configurations, each step followed by every mutator through the "
-        "read-only view (must be refused, snapshot unchanged) and every read through the view compared with the underlying "
+        "read-only view and through an indexer stacked above the view (must be refused, snapshot unchanged) and every read through the view compared with the underlying "
         "store; (b) all keys of depth <= D over components {a, b.txt, ., .., '', __metadata__} with and without leading '/' "
         "(exhaustive: D=3 quick, 4 thorough) plus absolute keys pointing into the box x 13 store operations x routes "
-        "{direct, direct with a relative root ('.', '', '../root'), one-level mount, two-level mount, resource query}. Evaluations = operations monitored; non-trivial = key "
+        "{direct, direct with a relative root ('.', '', '../root'), one-level mount, two-level mount, resource query}, half of the cases after ordinary use of the store and after other directory stores of the process read the same key where it is legal for them. Evaluations = operations monitored; non-trivial = key "
         "contains '..', '', a leading '/' or the metadata folder name, or a mutator through the view; distinct = distinct "
         "(route, operation, key) / (configuration, history step, mutator).")
 ASSUMPTIONS = ["symbolic links are not part of the workload", "the box lives on /dev/shm; nothing outside it is ever addressed"]
